@@ -391,7 +391,7 @@ func checkHandlerRaces(id, tier string, res *raceResult) {
 	model.procs = append(model.procs, envProc(1, 1))
 	k := 14
 	if tier == "thorough" {
-		k = 20
+		k = 16 // 20 ran past the 25-minute query limit on every class
 	}
 	perClass, samples, queries, solverSec := raceQueries(id, "handler", "c17_race_bmc", model, k, runRaceDetector, res)
 	res.Coverage["handler"] = map[string]interface{}{
